@@ -199,6 +199,14 @@ func (x *run) checkC03(obs []seen) *Failure {
 		}
 		seenOnce[s.E] = s.Where
 	}
+	// a direct resolution of an output the constructor leaves nil is a request site too (its value is not judged)
+	for _, o := range x.R.Obs {
+		if o.Kind == "resolve" && o.Err == nil && o.Panic == nil && o.Ident.Group == "" && x.M.NilOutput(o.Ident) {
+			if ow, ok := x.M.Owner(o.Ident); ok && x.M.Regs[ow.Reg].Life == kit.Transient {
+				sites[ow.Reg]++
+			}
+		}
+	}
 	for _, id := range x.M.Order {
 		reg := x.M.Regs[id]
 		if reg.Life != kit.Transient || reg.Form == kit.FormInstance || reg.Form == kit.FormVoid {
